@@ -91,6 +91,9 @@ def run_schedule(kspec: Any, arrivals: tuple[tuple[float, str, str], ...], perio
         # the pending request's own timeout expires a hair before the first pong deadline and the loop, briefly blocked, runs both
         # timers in one iteration: the request has just been failed (its task has not resumed yet) when the connection is declared dead
         kspec = float(kspec[7:])
+    stopraises = isinstance(kspec, str) and kspec.startswith("stopraises:")
+    if stopraises:
+        kspec = float(kspec[11:])  # the application's stop callback raises: the waiters are told all the same, everything is released
     noname = isinstance(kspec, str) and kspec.startswith("noname:")
     if noname:
         kspec = float(kspec[7:])  # a device that announces no name in its hello (the field is optional)
@@ -127,6 +130,7 @@ def run_schedule(kspec: Any, arrivals: tuple[tuple[float, str, str], ...], perio
             w.connect_fully()
             conn = w.conn
             k = float(kspec)
+        w.stop_raises = stopraises
         t0 = w.loop.time()
         sock = w.sock
         assert sock is not None
@@ -223,6 +227,12 @@ def run_schedule(kspec: Any, arrivals: tuple[tuple[float, str, str], ...], perio
                         f"reference: {'dead at ' + str(ref.dead_at - t0) if ref.dead_at is not None else 'alive'}")
         elif closed_at is not None and abs(closed_at - ref.dead_at) > 1e-6:  # type: ignore[operator]
             viol.append(f"C10:dead-time:closed at {closed_at - t0}, reference {ref.dead_at - t0}")  # type: ignore[operator]
+        if closed_at is not None and not viol and stopraises:
+            w.run_timers(w.loop.time() + 2 * k)
+            left = [h for h in w.loop.live_timers() if h._when < t0 + 5e4]
+            if (w.sock is not None and not w.sock.closed) or left:
+                viol.append(f"C10:dead:declared dead, but the socket is {'open' if w.sock is not None and not w.sock.closed else 'closed'} and "
+                            f"{len(left)} timers are still armed afterwards (the stop callback raised)")
         if closed_at is not None and not viol:
             out = w.outcome("req")
             if out != "exc:PingFailedAPIError" and not (reqdue and out == "exc:TimeoutAPIError"):
@@ -303,6 +313,7 @@ def run(tier: str, seed: int) -> Result:
     for kk in (1.0, 2.0):
         jobs += schedules(f"reqdue:{kk}", 1 if q else 2, KINDS, ("PRESP", "UK"))
     jobs += schedules("noname:2.0", 1 if q else 2, KINDS, ("PRESP", "UK"))
+    jobs += schedules("stopraises:2.0", 1 if q else 2, KINDS, ("PRESP", "UK"))
     # keepalive values whose 4.5*K has many decimals, and very small ones: nothing is rounded
     # (arrivals strictly inside the grid cells: with non-dyadic K a "tie" would be decided by floating-point noise)
     for kk in (0.3, 0.07, 0.013, 0.002, 0.001, 1e-4, 123.456):
